@@ -174,7 +174,10 @@ def step (st : St) (s : Step) (obs : List (String Ã— List Val)) : St Ã— String Ã
   match run h s.op with
   | .error .circular => (st, "circ;-;-;-", true)
   | .error .fuel => (st, "fuel;-;-;-", true)
-  | .error _ => (st, "err;e;-;-", false)
+  | .error _ =>
+    -- a rejected inner call of a nested application leaves no value behind
+    let st' := if s.target = "$tmp" then { st with env := assign st.env "$tmp" .nil } else st
+    (st', "err;e;-;-", false)
   | .ok (h1, res) =>
     -- expected result by the value level (B) on the current argument values
     let xs := (argVals.head?.bind id).getD []
